@@ -61,21 +61,19 @@ class _BufferedLoadAndSave(_LoadAndSave):
     acquire the buffer lock in addition to the default behavior.
     """
 
-    def __enter__(self):
+    def _acquire_locks(self):
         self._collection._buffer_lock.__enter__()
         try:
-            super().__enter__()
+            super()._acquire_locks()
         except BaseException:
-            # __exit__ is not called when __enter__ raises, so the lock must
-            # be released here or it would stay held forever.
             self._collection._buffer_lock.__exit__(None, None, None)
             raise
 
-    def __exit__(self, exc_type, exc_val, exc_tb):
+    def _release_locks(self):
         try:
-            super().__exit__(exc_type, exc_val, exc_tb)
+            super()._release_locks()
         finally:
-            self._collection._buffer_lock.__exit__(exc_type, exc_val, exc_tb)
+            self._collection._buffer_lock.__exit__(None, None, None)
 
 
 class FileBufferedCollection(BufferedCollection):
